@@ -34,8 +34,9 @@ class Contract:
                  invariants=None, serves=(), trusted=False, module=None, locals=None,
                  inline=False, note='', cut_before=None, kwparams=None, pure=False,
                  effects_exc=(), vararg=None, assume_after=None, abstract=None,
-                 ghost_in_body=None, observe=(), generator=False, defaults=None, kwarg=None, kwarg_keys=(), exc_fields=None, ghost_before=None, raises_exact=True, reads=None, inout=()):
+                 ghost_in_body=None, observe=(), generator=False, defaults=None, kwarg=None, kwarg_keys=(), exc_fields=None, ghost_before=None, raises_exact=True, reads=None, inout=(), stores=()):
         self.name = name
+        self.stores = list(stores)             # parameters whose container argument the callee keeps a reference to
         self.inout = list(inout)               # inline callees: value-semantic parameters mutated in place, written back
         self.params = dict(params or {})
         self.returns = returns
